@@ -22,3 +22,6 @@ def check(ctx, env):
     R.r5_2_timeout(ctx, prog, rule="R17.3")
     R.r5_2_recv_final(ctx, prog, rule="R17.3")
     R.r5_2_finished(ctx, prog, rule="R17.3")
+    # "a message that fails authentication is ignored": a 401 / 438 that carries an integrity attribute of either kind is
+    # taken (nonce / parameters / state written) only after it verified (same rule as C08 R8.4)
+    M.r8_4_write_after_auth(ctx, prog, rule="R17.4")
